@@ -330,6 +330,11 @@ func c07Run(seed int64, sc c07scn, res *core.Result) {
 		s.Ctl.Random(uint64(seed)*131+uint64(sc.rep)*977+uint64(len(sc.kind)), 300, 200)
 		_ = c.Send(target, flush)
 	case "replied":
+		if thirdGate != nil {
+			// the target is itself a Tflush: it is answered once the request it names is
+			close(thirdGate)
+			thirdGate = nil
+		}
 		_ = c.Send(target)
 		r0, err := c.WaitTag(target.Tag, W)
 		if err != nil || r0.Msg == nil {
@@ -445,13 +450,25 @@ func c07Run(seed int64, sc c07scn, res *core.Result) {
 	flushSeq := map[uint16]int64{}
 	deadline := time.Now().Add(W)
 	need := len(flushes)
+	isFlush := map[uint16]bool{}
+	for _, f := range flushes {
+		isFlush[f.Tag] = true
+	}
+	for _, r := range preReplies {
+		if r.Msg != nil && r.Msg.Type == wire.Rflush && isFlush[r.Msg.Tag] {
+			if _, dup := flushSeq[r.Msg.Tag]; !dup {
+				need--
+			}
+			flushSeq[r.Msg.Tag] = r.Seq
+		}
+	}
 	for need > 0 {
 		r, err := c.Next(time.Until(deadline))
 		if err != nil {
 			break
 		}
 		wireOrder = append(wireOrder, r)
-		if r.Msg != nil && r.Msg.Type == wire.Rflush {
+		if r.Msg != nil && r.Msg.Type == wire.Rflush && isFlush[r.Msg.Tag] {
 			if _, dup := flushSeq[r.Msg.Tag]; !dup {
 				need--
 			}
